@@ -160,7 +160,7 @@ impl Wal {
 		// Cut such a tail off before appending.
 		if existing_size > 0 {
 			if let Some(valid_end) = Self::valid_prefix_len(&file_path) {
-				if valid_end > 0 && valid_end < existing_size {
+				if valid_end < existing_size {
 					log::warn!(
 						"WAL #{:020}: dropping {} bytes of torn tail before appending",
 						log_number,
@@ -205,9 +205,18 @@ impl Wal {
 	/// end of log; `None` when the segment is damaged (recovery decides about repair) or
 	/// cannot be read.
 	fn valid_prefix_len(file_path: &Path) -> Option<u64> {
+		let mut file = File::open(file_path).ok()?;
+		// A leading SetCompressionType record is metadata, not a delivered record: keep it.
+		let mut last = 0u64;
+		let mut header = [0u8; HEADER_SIZE];
+		if file.read_exact(&mut header).is_ok() && header[6] == RecordType::SetCompressionType as u8 {
+			let length = u16::from_be_bytes([header[4], header[5]]) as u64;
+			if HEADER_SIZE as u64 + length <= file.metadata().ok()?.len() {
+				last = HEADER_SIZE as u64 + length;
+			}
+		}
 		let file = File::open(file_path).ok()?;
 		let mut reader = super::reader::Reader::new(file);
-		let mut last = 0u64;
 		loop {
 			match reader.read() {
 				Ok((_, offset)) => last = offset,
